@@ -191,12 +191,41 @@ def impl(case):
         finally:
             sys.stdout, sys.stderr = saved
     # purity: diff() must not alter its inputs
-    o = graphtage.BuildOptions(allow_key_edits="-k" not in case["argv"])
+    av = case["argv"]
+    strat = av[av.index("--dict-strategy") + 1] if "--dict-strategy" in av else ("none" if "-k" in av else "auto")
+    o = graphtage.BuildOptions(allow_key_edits=strat != "none", auto_match_keys=strat == "auto",
+                               allow_list_edits="-l" not in av, allow_list_edits_when_same_length="-ll" not in av)
     mutated = None
     if "ext" in case:      # deep-nesting cases: the purity snapshot itself would exhaust the stack
+        # ... but an ABORTED comparison must leave the trees as they were, too: the parent links along the spine
+        try:
+            A, B = gj.build_tree(case["f"], o), gj.build_tree(case["t"], o)
+
+            def spine(n, k=120):
+                out = []
+                for _ in range(k):
+                    kids = list(n.children())
+                    if not kids:
+                        break
+                    out.append((id(n), [id(c.parent) for c in kids]))
+                    n = kids[-1]
+                return out
+            sa, sb = spine(A), spine(B)
+            try:
+                A.diff(B)
+            except RecursionError:
+                pass
+            if spine(A) != sa:
+                mutated = "from (parent links after an aborted diff)"
+            elif spine(B) != sb:
+                mutated = "to (parent links after an aborted diff)"
+        except RecursionError:
+            pass
+        except Exception as e:
+            mutated = "EXC:" + type(e).__name__
         return {"rc": r1["rc"], "exc": r1["exc"], "sha": hashlib.sha256(r1["out"].encode("utf-8", "surrogatepass")).hexdigest(),
                 "len": len(r1["out"]), "head": r1["out"][:300], "twice_same": (r1["rc"], r1["out"], r1["exc"]) == (r2["rc"], r2["out"], r2["exc"]),
-                "mutated": None}
+                "mutated": mutated}
     A, B = gj.build_tree(case["f"], o), gj.build_tree(case["t"], o)
     sa, sb = _snapshot(A), _snapshot(B)
     try:
